@@ -68,10 +68,17 @@ func StartCoarseClock(s *simrt.Sim, lagPermille int) *ClockLog {
 	cl := &ClockLog{}
 	set := func(t time.Time) {
 		v := uint32(t.Unix())
-		atomic.StoreUint32(&utilsTimestamp, v)
+		atomic.StoreUint32(&coarseNow, v)
+		// utils.Timestamp() follows only if the code under test has asked for the updater (the real one is
+		// started by utils.StartTimeStampUpdater and by nothing else); until then it reads 0 as it would
+		if s.TimestampUpdaterStarted() {
+			atomic.StoreUint32(&utilsTimestamp, v)
+		}
 		cl.Seq = append(cl.Seq, s.Stamp())
 		cl.Val = append(cl.Val, v)
 	}
+	coarseOwner.Store(s)
+	atomic.StoreUint32(&utilsTimestamp, 0)
 	set(time.Now())
 	simrt.GoNamed("coarse-clock", func() {
 		ticker := time.NewTicker(time.Second)
@@ -88,5 +95,19 @@ func StartCoarseClock(s *simrt.Sim, lagPermille int) *ClockLog {
 	return cl
 }
 
-// Now returns the coarse clock.
-func CoarseNow() uint32 { return atomic.LoadUint32(&utilsTimestamp) }
+// Now returns the coarse clock (the harness's own: what a storage server's clock shows, whether or not the
+// code under test keeps utils.Timestamp() running).
+func CoarseNow() uint32 { return atomic.LoadUint32(&coarseNow) }
+
+var (
+	coarseNow   uint32
+	coarseOwner atomic.Pointer[simrt.Sim]
+)
+
+func init() {
+	simrt.TimestampHook = func(s *simrt.Sim) {
+		if coarseOwner.Load() == s {
+			atomic.StoreUint32(&utilsTimestamp, atomic.LoadUint32(&coarseNow))
+		}
+	}
+}
